@@ -107,6 +107,38 @@ impl Ro {
         }
         v
     }
+    /// The same option set built another way: from any base set, with the keyword
+    /// syntaxes given as a list (in a random order, entries possibly repeated:
+    /// with_keyword_syntaxes *sets* the syntaxes) and every other field overridden.
+    pub fn options_alt(&self, r: &mut crate::rng::Rng) -> parse::Options {
+        let base = match r.below(3) { 0 => parse::Options::new(), 1 => parse::Options::default(), _ => parse::Options::elisp() };
+        let mut list: Vec<KeywordSyntax> = vec![];
+        for (bit, s) in [(1u8, KeywordSyntax::ColonPrefix), (2, KeywordSyntax::ColonPostfix), (4, KeywordSyntax::Octothorpe)] {
+            if self.kw & bit != 0 { for _ in 0..1 + r.below(3) { list.push(s); } }
+        }
+        for i in (1..list.len()).rev() { let j = r.below(i as u64 + 1) as usize; list.swap(i, j); }
+        base.with_keyword_syntaxes(list)
+            .with_nil_symbol(match self.nil { 0 => NilSymbol::EmptyList, 1 => NilSymbol::Default, _ => NilSymbol::Special })
+            .with_t_symbol(if self.t == 0 { TSymbol::True } else { TSymbol::Default })
+            .with_brackets(if self.brackets == 0 { Brackets::List } else { Brackets::Vector })
+            .with_string_syntax(if self.string == 0 { parse::StringSyntax::R6RS } else { parse::StringSyntax::Elisp })
+            .with_char_syntax(if self.chr == 0 { parse::CharSyntax::R6RS } else { parse::CharSyntax::Elisp })
+            .with_racket_hash_percent_symbols(self.racket == 1)
+            .with_leading_digit_symbols(self.digit == 1)
+    }
+    /// What the getters of an option set report, as a Ro.
+    pub fn of_options(o: parse::Options) -> Ro {
+        Ro {
+            kw: (o.keyword_syntax(KeywordSyntax::ColonPrefix) as u8) | ((o.keyword_syntax(KeywordSyntax::ColonPostfix) as u8) << 1) | ((o.keyword_syntax(KeywordSyntax::Octothorpe) as u8) << 2),
+            nil: match o.nil_symbol() { NilSymbol::EmptyList => 0, NilSymbol::Default => 1, _ => 2 },
+            t: match o.t_symbol() { TSymbol::True => 0, _ => 1 },
+            brackets: match o.brackets() { Brackets::List => 0, _ => 1 },
+            string: match o.string_syntax() { parse::StringSyntax::R6RS => 0, _ => 1 },
+            chr: match o.char_syntax() { parse::CharSyntax::R6RS => 0, _ => 1 },
+            racket: o.racket_hash_percent_symbols() as u8,
+            digit: o.leading_digit_symbols() as u8,
+        }
+    }
     pub fn options(&self) -> parse::Options {
         let mut o = parse::Options::new();
         if self.kw & 1 != 0 {
